@@ -633,7 +633,18 @@ def check_generator(ctx, fi, G, counts, rows, method_p):
         extra = '%s-%s.sum()' % (rows, T(Ibase))
         F = 'np.modf(%s)[0]' % T(C)
         okc = False
-        if is_choice(idx):
+        SUP = 'np.flatnonzero(%s)' % F
+        if isinstance(idx, ast.Subscript) and T(idx.value) == SUP and is_choice(idx.slice):
+            # the draw restricted to the cells WITH a fractional part, mapped back to cell numbers: S = flatnonzero(F); S[choice(S.size, extra, False, F[S] / F.sum())]
+            a = call_args(idx.slice, ['a', 'size', 'replace', 'p'])
+            okc = 'a' in a and size_of(a['a'], (SUP,)) and T(a.get('size')) == extra and \
+                isinstance(a.get('replace'), ast.Constant) and a['replace'].value is False and \
+                T(a.get('p')) in ('%s[%s]/%s.sum()' % (F, SUP, F), '%s[%s]/%s[%s].sum()' % (F, SUP, F, SUP), '%s[%s]/np.sum(%s)' % (F, SUP, F))
+        elif is_choice(idx) and size_of(call_args(idx, ['a', 'size', 'replace', 'p']).get('a'), (SUP,)):
+            detail_extra = ' - the draw is over POSITIONS within the cells that have a fractional part (`%s`), which are used as cell numbers without mapping them back' % SUP
+            okc = False
+            ctx.note('synthetic_data: ' + detail_extra)
+        elif is_choice(idx):
             a = call_args(idx, ['a', 'size', 'replace', 'p'])
             okc = 'a' in a and size_of(a['a'], (counts, T(C))) and T(a.get('size')) == extra and \
                 isinstance(a.get('replace'), ast.Constant) and a['replace'].value is False and \
